@@ -228,6 +228,9 @@ def notation_case(rng):
             row.update(x=[x0], y=[y0], r=[])
         if shape in ('rotbox', 'rotrectangle'):
             row['rot'] = rng.choice([0.0, 30.0, 90.0, rng.uniform(-360, 360), rng.uniform(0, 360)])
+        elif shape in ('box', 'rectangle', 'circle', 'annulus', 'point') and rng.random() < 0.35:
+            # a table whose ROTANG column is filled in every row: the unrotated notations do not use it
+            row['rot'] = rng.choice([30.0, 90.0, rng.uniform(-360, 360)])
         rows.append(row)
     comp = rng.random() < 0.3
     if comp:
